@@ -62,6 +62,7 @@ pub fn def() -> PropDef {
 
 fn run(sim: &Sim, cfg: &RunCfg) -> RunOut {
     sim.choose_policy();
+    swarm_short_io(sim);
     let rw = sim.with_w(|t| t.chance(1, 2));
     if rw {
         run_v::<VringRwLock<GM<()>>>(sim, cfg)
